@@ -208,7 +208,7 @@ def run(ctx):
     rng = ctx.rng.fork("c09")
     programs = [("corpus/" + n, s) for n, s in nagarun.corpus()]
     programs += [("template/%d" % i, t) for i, t in enumerate(c09gen.TEMPLATES)]
-    ngen = ctx.scale(260, 12000)
+    ngen = int(os.environ.get("C09_NGEN") or ctx.scale(220, 6000))
     for i in range(ngen):
         programs.append(("gen/%d" % i, c09gen.generate(rng.fork("p%d" % i), 2 + i % 3)))
     results = compile_all(tools, programs)
